@@ -614,10 +614,12 @@ package leader
 //@   ghost validation_failed Bool = false
 //@   on ret ValidateToken as r set v0 = r.result0
 //@   on ret ValidateToken as r set v1 = r.result1
+//@   ghost sawNotLeader Bool = false
 //@   on load kvElection.isLeader as l set stillLeader = l.value
+//@   on load kvElection.isLeader as l when !l.value set sawNotLeader = true
 //@   on call handleValidationFailure set validation_failed = !(v0 && v1 == nil)
 //@   ensures C04.same_verdict: result == (v0 && v1 == nil) && calls(ValidateToken) == 1
-//@   ensures C04.demote_on_false: !result && stillLeader ==> calls(handleValidationFailure) == 1
+//@   ensures C04.demote_on_false: !result ==> calls(handleValidationFailure) == 1 || sawNotLeader
 //@   ensures C04.no_demote_on_true: result ==> calls(handleValidationFailure) == 0
 
 // ===========================================================================
